@@ -309,7 +309,9 @@ def check(run: Run) -> None:
                         "re-arm protocol (shared with C09.a-e)"):
         from . import c09
         sub = Run("C02", run.tier, run.tree, quiet=True)
-        c09.check(sub)
+        sub.is_sub = True
+        if not getattr(run, "is_sub", False):
+            c09.check(sub)
         run.evaluations += sub.evaluations
         run.count(1, "C02.h")
         for f in sub.findings:
@@ -325,11 +327,20 @@ def check(run: Run) -> None:
         R.k1(run, "C02.i", fa, roles, lambda v: Expect(throws=True) if v.le("END", "START") else Expect(),
              what="validate_times")
 
+    with run.obligation("C02.j", "K1", "wake-ups booked by the children of a keyed map_ survive the owner's pass: the schedule queue drops exactly the entries <= NOW and the "
+                        "owner re-arms at the heap minimum (shared with C10.e)"):
+        from . import c10
+        R.share(run, "C02.j", c10, ["C10.e"])
+
+    with run.obligation("C02.k", "K1", "a wake-up requested through NodeScheduler::schedule is stored: admission, tag replacement (a tag re-booked at the SAME time keeps its "
+                        "event) and the wall-clock guard (shared with C18.a2, C18.b, C18.b2)"):
+        from . import c18
+        R.share(run, "C02.k", c18, ["C18.a2", "C18.b", "C18.b2"])
+
 
 # shared with C03 / C15 / C18 ---------------------------------------------------------------------
 NODE_EVAL_CALLS = {"EVAL": r"callbacks\(context\)\.evaluate", "WERR": r"write_node_error", "ADV": r"sched\.advance",
                    "RESCHED": r"view\.graph_value\(\)->schedule_node"}
-
 
 def node_eval_roles():
     return [
